@@ -67,6 +67,7 @@ def has_integer_beyond_i64(p):
 
 def run(ctx):
     lean_check(ctx, "I18nVerif.Theorems.C10", "C10_")
+    lean_check(ctx, "I18nVerif.Theorems.C10Pipeline", "C10_")
     rng = ctx.rng
     bins = {f: build_parser(ctx, f) for f in ("json", "yaml", "json5")}
     if any(b is None for b in bins.values()):
